@@ -28,7 +28,7 @@ func VerifC12_HTLC() {
 	deputy, user, other := vAddr(5), vAddr(1), vAddr(2)
 	asset := types.AssetParam{Denom: hDenom,
 		SupplyLimit: types.SupplyLimit{Limit: sdkmath.NewInt(1_000_000_000), TimeLimited: false, TimePeriod: time.Hour, TimeBasedLimit: sdkmath.ZeroInt()},
-		Active: true, DeputyAddress: deputy.String(), FixedFee: sdkmath.NewInt(1), MinSwapAmount: sdkmath.NewInt(1), MaxSwapAmount: sdkmath.NewInt(1_000_000),
+		Active:      true, DeputyAddress: deputy.String(), FixedFee: sdkmath.NewInt(1), MinSwapAmount: sdkmath.NewInt(1), MaxSwapAmount: sdkmath.NewInt(1_000_000),
 		MinBlockLock: types.MinTimeLock, MaxBlockLock: types.MaxTimeLock}
 	if err := k.SetParams(e.ctx, types.Params{AssetParams: []types.AssetParam{asset}}); err != nil {
 		verifFail("params rejected")
